@@ -4,6 +4,7 @@ from .c04 import STB
 
 def run(res):
     n = 250 if res.tier == "quick" else 4000
+    nno = 150 if res.tier == "quick" else 2000
     lib.standard_check(
         res, "c08", n,
         prop_files=["theories/Properties/C08.v"],
@@ -12,4 +13,6 @@ def run(res):
                      "C08_effect (authorised => OK, exactly the selected instances emptied, others/held/election untouched, counter invariant kept), C08_rib_flush; C08_tree_refuted (shared backup group)",
         trusted=STB,
         assumptions=["Flush runs alone (overlap with Modify: C11)", "C08_effect is stated for states satisfying INV (proved for every reachable RIB state in C03)",
-                     "model-free oracle: expected status from the script and the declarative table, Get-equivalent snapshot per instance before/after, 'removed everything => OK', delete probes after the flush"])
+                     "model-free oracle: expected status from the script and the declarative table, Get-equivalent snapshot per instance before/after, 'removed everything => OK', delete probes after the flush",
+                     "vh c08nocheck (oracle only): Flush on a server built with DisableRIBCheckFn, whose RIB holds entries with missing groups, next-hops or group instances: an authorised Flush answers OK, empties exactly the selected instances and leaves the others as they were"],
+        extra_runs=[("c08nocheck", nno)])
